@@ -4,7 +4,11 @@
 (* within the bounds is printed once, with the history that leads to it   *)
 (* (shortest path to the source state + the new operation) and the content *)
 (* of every handle predicted after the step.  The history variable is      *)
-(* hidden from the state fingerprint by VIEW.                              *)
+(* hidden from the state fingerprint by VIEW; its length is kept, so that  *)
+(* the enumeration is exactly "every (state, depth) pair within the bound  *)
+(* with all its transitions" whatever the order in which TLC's workers     *)
+(* reach the states.  In -simulate mode every successor of every state on  *)
+(* a random walk is printed.                                               *)
 (***************************************************************************)
 EXTENDS ProtoSpec, Json
 HView == <<core, Len(hist)>>
